@@ -1,6 +1,8 @@
 package props
 
 import (
+	"strings"
+
 	"golang.org/x/tools/go/ssa"
 )
 
@@ -21,5 +23,14 @@ func c19(c *Ctx) {
 	n := resetR1(c, um, 0, nil)
 	minLenRule(c, []minLenRow{{fn: "rtp.(*VLA).Unmarshal", want: []int{2}, minOnly: true, why: "header octet + #tl octet"}})
 	r.Floor("decoded fields checked by RESET.R1", n, 3)
+	// decoded and encoded quantities are 16-bit or wider on the wire: no computation on them may be done in
+	// arithmetic narrower than int that can wrap (width/height minus one, stream and layer counts)
+	c.wrapScope = map[string]bool{}
+	for name := range p.Funcs {
+		// decoding side only: the encoder packs validated nibbles with byte shifts
+		if strings.HasPrefix(name, "rtp.(*VLA).") && strings.Contains(strings.ToLower(name), "unmarshal") {
+			c.wrapScope[name] = true
+		}
+	}
 	boundsFor(c, "C19", []*ssa.Function{um, ma})
 }
